@@ -70,12 +70,12 @@ def hazard(ctx, timeout):
 def run(ctx):
     ctx.build(["vx"])
     q = ctx.quick()
-    nrand = 3 if q else 26
+    nrand = 3 if q else 39
     rand_ids = [101 + ((ctx.seed * 7 + i * 5) % NSHAPES) + NSHAPES * i for i in range(nrand)] if q else [101 + i for i in range(nrand)]
     ml = 2 if q else 3
     wide = [] if q else [3, 12]
     mc_shapes = [s for s in BASE if not (q and s in (8, 11))]          # quick: the two heaviest shapes are left to the thorough tier
-    mc_consts = dict(MaxEntries=3, Wide=set_lit(wide), MaxLL=1 if q else 2, StateShapes=set_lit(STATE_SHAPES))
+    mc_consts = dict(MaxEntries=3, Wide=set_lit(wide), MaxLL=1 if q else 3, StateShapes=set_lit(STATE_SHAPES))
     gen_consts = dict(MaxEntries=3, Wide=set_lit(wide), MaxLL=ml, StateShapes=set_lit(STATE_SHAPES))
     tmo = 600 if q else 1500
 
